@@ -177,6 +177,20 @@ theorem round_half_even (x : Rat) :
 example : roundHalfEven (5/2) = 2 ∧ roundHalfEven (7/2) = 4 ∧ roundHalfEven (-5/2) = -2 ∧
     roundHalfEven (-1/2) = 0 ∧ roundHalfEven (8/3) = 3 := by decide +kernel
 
+/-- `round(x, n)` (a rational): `k` units of the `n`-th decimal digit, within half a unit of `x`, ties to
+the even `k`; the unit is `1/10^n` for `n ≥ 0` and `10^(-n)` for `n < 0` -/
+theorem round_ndigits (x : Rat) (n : Int) :
+    (0 ≤ n → ∃ k : Int, roundNdigits x n = (k : Rat) / (10 : Rat) ^ n.toNat ∧
+        |x - roundNdigits x n| ≤ (1 / 2) / (10 : Rat) ^ n.toNat ∧
+        (|x - roundNdigits x n| = (1 / 2) / (10 : Rat) ^ n.toNat → k % 2 = 0)) ∧
+    (n < 0 → ∃ k : Int, roundNdigits x n = (k : Rat) * (10 : Rat) ^ (-n).toNat ∧
+        |x - roundNdigits x n| ≤ (1 / 2) * (10 : Rat) ^ (-n).toNat ∧
+        (|x - roundNdigits x n| = (1 / 2) * (10 : Rat) ^ (-n).toNat → k % 2 = 0)) :=
+  roundNdigits_spec x n
+
+example : roundNdigits (1/3) 2 = 33/100 ∧ roundNdigits (12345/2) (-2) = 6200 ∧ roundNdigits (1/4) 1 = 1/5 ∧
+    roundNdigits (35/100) 1 = 2/5 ∧ roundNdigits (-1/3) 0 = 0 := by decide +kernel
+
 /-- `int(x)` / `trunc(x)` round toward zero -/
 theorem trunc_nonneg (x : Rat) (hx : 0 ≤ x) :
     0 ≤ pyTrunc x ∧ (pyTrunc x : Rat) ≤ x ∧ x < (pyTrunc x : Rat) + 1 := pyTrunc_nonneg x hx
